@@ -26,6 +26,12 @@ Specials == {
   Obj(<<P(Kd, Lit(NumD(N2), <<OptR>>)), P(Kc, Ref(<<"@I">>, <<>>))>>, <<R("allOf", ListV(<<TRef("@A1"), TRef("@A2")>>)), R("additionalProperties", IdV("string"))>>),
   Lit(NumD(N1), <<R("enum", [t |-> "name", s |-> "@E"])>>), Lit(StrD(Sa), <<R("enum", [t |-> "name", s |-> "@E"]), NullR>>),
   Lit(NumD(N1), <<R("enum", ListV(<<EV(NumD(N1)), EV(StrD(Sa)), EV(Null), EV(BoolD(TRUE)), EV(NumD(N2_5))>>))>>),
+  \* comments after the items of a list (a multi-line annotation), one of them containing the comment character itself
+  Lit(NumD(N1), <<R("enum", ListV(<<EV(NumD(N1)) @@ [note |-> "one #1"], EV(NumD(N2)), EV(StrD(Sa)) @@ [note |-> "the letter"]>>))>>),
+  Obj(<<P(Ka, Lit(NumD(N2), <<OptR, R("enum", ListV(<<EV(NumD(N1)) @@ [note |-> "first"], EV(NumD(N2)) @@ [note |-> "second # not a comment"]>>))>>))>>, <<>>),
+  \* or-alternatives named by a format / "any" next to an example of another kind
+  Lit(Null, <<R("or", ListV(<<IdV("date"), IdV("null")>>))>>), Lit(NumD(N1), <<R("or", ListV(<<IdV("email"), IdV("integer"), IdV("any")>>))>>),
+  Lit(BoolD(TRUE), <<R("or", ListV(<<IdV("uuid"), IdV("boolean")>>))>>), Lit(NumD(N1_5), <<R("or", ListV(<<IdV("datetime"), IdV("float"), IdV("uri")>>))>>),
   Ref(<<"@I">>, <<>>), Ref(<<"@I", "@S">>, <<NullR>>), Ref(<<"@A1", "@I", "@S">>, <<>>),
   Obj(<<SC("@K", One), P(Kx, Ref(<<"@S">>, <<OptR>>))>>, <<>>), Obj(<<SC("@K", Ref(<<"@I", "@S">>, <<>>))>>, <<>>),
   Lit(NumD(N1), <<R("type", TRef("@I"))>>), Lit(StrD(Sa), <<R("type", TRef("@S")), NullR>>),
